@@ -282,7 +282,10 @@ impl BitvectorExtended for Bitvector {
             ))
         } else {
             let result = self.clone().into_checked_mul(rhs).unwrap();
-            if result.clone().into_checked_sdiv(self).unwrap() != *rhs {
+            // The division check cannot detect the overflow of `-1 * MIN`, because `MIN / -1` overflows itself.
+            let is_minus_one_times_min = *self == -Bitvector::one(self.width())
+                && *rhs == Bitvector::signed_min_value(rhs.width());
+            if is_minus_one_times_min || result.clone().into_checked_sdiv(self).unwrap() != *rhs {
                 Ok((result, true))
             } else {
                 Ok((result, false))
